@@ -23,11 +23,15 @@ func encode(privkey []byte, version byte, compressed bool) (string, error) {
 		return "", ErrInvalidPrivateKey
 	}
 
+	// Copy the key: appending the flag to privkey itself could write
+	// into spare capacity of the caller's backing array.
+	payload := make([]byte, 0, len(privkey)+1)
+	payload = append(payload, privkey...)
 	if compressed {
-		privkey = append(privkey, 0x01)
+		payload = append(payload, 0x01)
 	}
 
-	encoded := base58check.EncodeVersion(privkey, uint16(version))
+	encoded := base58check.EncodeVersion(payload, uint16(version))
 	return encoded, nil
 }
 
